@@ -26,7 +26,27 @@ prop('C20', level='proof', design_ref='DESIGN.md section 6 (C20)',
                  'by per-operation VCs generated from the real source of Notifications.',
      not_decided=[], assumptions=['heights reported by the callers are >= 0 (daemon heights)'])
 
-for _pid in ['C01', 'C02', 'C03', 'C04', 'C05', 'C07', 'C08', 'C09', 'C10', 'C11', 'C12', 'C13', 'C14', 'C15',
+prop('C12', level='other', design_ref='DESIGN.md section 6 (C12)',
+     technique='deductive verification: VCs from the real source of Merkle/MerkleCache against the Bitcoin merkle '
+               'definition (spec functions mroot/foldp/nxt), loop invariants, explicit lemma instances, z3',
+     text='branch_length, branch_and_root (classic and TSC), root, root_from_proof are proved equal to the definition for '
+          'all list lengths, indices and lengths (no bound).',
+     note='Trusted: definitions of the spec functions, induction principle (meta rule) for the listed lemmas, H/cat uninterpreted, '
+          'Python list/int semantics as encoded (DESIGN 2.2).',
+     explanation='Deductive part: branch_length, tree_depth, branch_and_root (classic + TSC), root, root_from_proof proved '
+                 'against the definition for all inputs (loop invariants over (array,length) lists; every spec-function '
+                 'fact is an explicit instance).  Level is "other" because level(), branch_and_root_from_level() and '
+                 'MerkleCache are so far served by a bounded stand-in (exhaustive comparison with the definition), '
+                 'labelled bounded and not counted in obligations/discharged.',
+     bounded=[{'obligation': 'merkle.MerkleCache.bounded', 'driver': 'merkle.py',
+               'what': 'Merkle.level, Merkle.branch_and_root_from_level and MerkleCache (initialise/extend/truncate in any '
+                       'order) agree with the from-scratch definition',
+               'bound': 'every list length 1..40 x every index x every depth_higher x both formats; 1320 random cache '
+                        'operation sequences (init 1..33, up to 5 truncate/query operations, lengths <= 48)'}],
+     not_decided=['Merkle.level / branch_and_root_from_level / MerkleCache are not yet under deductive contract'],
+     assumptions=[])
+
+for _pid in ['C01', 'C02', 'C03', 'C04', 'C05', 'C07', 'C08', 'C09', 'C10', 'C11', 'C13', 'C14', 'C15',
              'C16', 'C17', 'C18', 'C19']:
     na(_pid, 'contracts for this property are not yet built in this round (planned: DESIGN.md section 6); nothing is claimed')
 na('C06', 'quantifies over cancellation instants of an asyncio task while worker-thread jobs keep running: not '
